@@ -98,7 +98,7 @@ func vScenarioC05(rc *runCtx) {
 	history := tp.Pick("c05.history", 4, 3, 2, 1) // number of preceding transfers
 	// further history: a drag upload that never became a transfer (no trz on the server), or a zmodem
 	// session that ended in an error
-	extra := tp.Pick("c05.extra", 5, 2, 2, 2)
+	extra := tp.Pick("c05.extra", 5, 2, 2, 2, 2)
 	if extra == 1 {
 		fo.DetectDragFile = true
 	}
@@ -217,6 +217,33 @@ func vScenarioC05(rc *runCtx) {
 			return
 		}
 	}
+	var cancelledTranscript []byte
+	if extra == 4 {
+		// a download the user cancels in the file dialog (a stand-in dialog program that exits the way a cancelled
+		// dialog does): the real server prints its refusal; later its whole record scrolls by again in one read
+		if dir := os.Getenv("PATH"); dir != "" && !strings.Contains(dir, ":") {
+			z := filepath.Join(dir, "zenity")
+			if os.WriteFile(z, []byte("#!/bin/sh\nexit 1\n"), 0755) == nil {
+				defer os.Remove(z)
+				endings = append(endings, "cancelled-in-dialog")
+				cfg2 := *cfg
+				cfg2.upload = false
+				cfg2.srvTmux = ""
+				o2 := cfg2.opts()
+				o2.srcPaths, o2.dstDir, o2.filterOpts, o2.noDefaultPath = spec.paths, dst, fo, true
+				x.settle(11 * time.Second)
+				from := x.down[0].NSentInt()
+				x.nextTransfer(o2)
+				w.Run(x.finished)
+				d, _, _ := x.down[0].Snapshot()
+				rec := d[from:]
+				if i := bytes.Index(rec, []byte("::TRZSZ:TRANSFER:")); i >= 0 && !x.filter.IsTransferringFiles() && x.server.Exited {
+					cancelledTranscript = append([]byte{}, rec[i:]...)
+				}
+				x.filter.SetDefaultDownloadPath(dst)
+			}
+		}
+	}
 	// drain window after the last transfer, then the probe phase
 	x.settle(1500 * time.Millisecond)
 	termBefore := x.term.NSentInt()
@@ -234,6 +261,17 @@ func vScenarioC05(rc *runCtx) {
 				wantIn = append(wantIn, 0x03)
 				x.kbd.Write([]byte{0x03})
 				verifsim.Sleep(50 * time.Millisecond)
+				continue
+			}
+			if cancelledTranscript != nil && i == 1 {
+				// the record of the cancelled transfer, as the server wrote it, again in one read (cat of a log)
+				kinds = append(kinds, "out:record-of-cancelled-transfer")
+				wantOut = append(wantOut, cancelledTranscript...)
+				prevAtomic := x.down[0].Atomic
+				x.down[0].Atomic = func(d []byte) bool { return true }
+				x.down[0].Write(cancelledTranscript)
+				x.down[0].Atomic = prevAtomic
+				verifsim.Sleep(100 * time.Millisecond)
 				continue
 			}
 			if extra == 1 && tp.Bool("c05.echoagain", 300) {
@@ -428,7 +466,11 @@ func vScenarioC06(rc *runCtx) {
 	})
 	// scripted server: answers an ACT or swallows the client's fail
 	answered := 0
+	realServer := false
 	up.OnWrite = func(l *verifsim.Link, d []byte) {
+		if realServer {
+			return
+		}
 		if bytes.Contains(d, []byte("#ACT:")) {
 			answered++
 			nl := "\n"
@@ -465,6 +507,59 @@ func vScenarioC06(rc *runCtx) {
 			}
 		}
 		return
+	}
+	// the record of a transfer that the user cancelled in the file dialog, exactly as the real server printed it,
+	// scrolls by again in one read: it starts nothing (the words the client looks for are the servers' words)
+	if tp.Bool("c06.realcancel", 250) {
+		if dir := os.Getenv("PATH"); dir != "" && !strings.Contains(dir, ":") {
+			z := filepath.Join(dir, "zenity")
+			if os.WriteFile(z, []byte("#!/bin/sh\nexit 1\n"), 0755) == nil {
+				src := filepath.Join(rc.dir, "src-real")
+				os.MkdirAll(src, 0755)
+				vWriteFile(filepath.Join(src, "f.txt"), []byte("content"))
+				upload := tp.Bool("c06.realcancel.up", 500)
+				sp := w.NewProc("realserver")
+				if upload {
+					sp.Args = []string{"trz", dst}
+				} else {
+					sp.Args = []string{"tsz", filepath.Join(src, "f.txt")}
+				}
+				sp.Stdin = &verifsim.SimFile{R: up}
+				sp.Stdout = &verifsim.SimFile{W: down}
+				sp.Stderr = &verifsim.SimFile{W: down}
+				filter.SetDefaultDownloadPath("")
+				realServer = true
+				fromDown := down.NSentInt()
+				sp.Start("realserver.main", func() int {
+					if upload {
+						return TrzMain()
+					}
+					return TszMain()
+				})
+				w.Run(func() bool { return sp.Exited && !filter.IsTransferringFiles() || w.Now() > 2*time.Minute })
+				x.settle(time.Second)
+				os.Remove(z)
+				realServer = false
+				filter.SetDefaultDownloadPath(dst)
+				d, _, _ := down.Snapshot()
+				rec := d[fromDown:]
+				if i := bytes.Index(rec, []byte("::TRZSZ:TRANSFER:")); i >= 0 && sp.Exited && !filter.IsTransferringFiles() {
+					rec = append([]byte{}, rec[i:]...)
+					rc.fault("record-of-cancelled-transfer-replayed")
+					from := up.NSentInt()
+					prevAtomic := down.Atomic
+					down.Atomic = func(d []byte) bool { return true }
+					down.Write(rec)
+					down.Atomic = prevAtomic
+					idle()
+					if acts, fails, stream := count(from); acts+fails > 0 {
+						rc.violate("scroll-back", "C06:cancelled-record-restarts", "the record of a cancelled %s, as the real server printed it (%s), started a transfer when it scrolled by again in one read: the client wrote %s",
+							map[bool]string{true: "upload", false: "download"}[upload], vQuote(rec, 120), vQuote(stream, 80))
+						return
+					}
+				}
+			}
+		}
 	}
 	n := 3 + tp.Draw("c06.items", 10)
 	var items []string
